@@ -159,6 +159,7 @@ PROPS = {
             {"kind": "verus", "unit": "galloc"},
             {"kind": "verus", "unit": "tabsize"},
             {"kind": "verus", "unit": "intops"},
+            {"kind": "verus", "unit": "ssample"},
         ],
         "unreached": ["dyn_size of XStack (walks Rc strong counts), Regex; that every container value is built through ManagedXValue::new (argued from the private fields of the struct); the pre-flight checks of the individual natives (V-intops decides those of the integer builtins, V-nlargest the capacity request of n_largest / n_smallest)"],
         "assumptions": [],
@@ -194,6 +195,7 @@ PROPS = {
             {"kind": "verus", "unit": "seq"},
             {"kind": "verus", "unit": "comb"},
             {"kind": "verus", "unit": "permut"},
+            {"kind": "verus", "unit": "ssample"},
             {"kind": "verus", "unit": "seqsearch"},
             {"kind": "verus", "unit": "rangector"},
             {"kind": "verus", "unit": "idx"},
